@@ -136,7 +136,11 @@ func (h *Handler) ipAvailable(lease *Lease, ip netip.Addr) bool {
 			return false
 		}
 	}
-	return h.session.FindIP(ip) == nil
+	// in use on the LAN by another host?
+	if host := h.session.FindIP(ip); host != nil && !bytes.Equal(host.MACEntry.MAC, lease.Addr.MAC) {
+		return false
+	}
+	return true
 }
 
 // allocIPOffer allocates a free IP to the lease entry
